@@ -1,49 +1,105 @@
 import Driver.C15Mon
-import OidcModel.Generated.TokenExchange
+import OidcModel.Generated.TokenExchangeTE
 import OidcModel.Model.Flow
 open Kv Drv
 
 namespace Drv.C15
 
-/-- the regenerated validation + response functions, with token resolution and the storage policy fed in as oracles -/
-def modelLine (l : Line) : String :=
+/-- `k=a,b,` as an optional pair -/
+def pair? (l : Line) (k : String) : Option (String × String) :=
+  match list l k with
+  | [a, b] => some (a, b)
+  | _ => none
+
+/-- oracle answer for token label `t` under key suffix `k`: the subject's (`s.`) or the actor's (`a.`) line entries -/
+def pfxOf (l : Line) (t : String) : Option String :=
+  if t == str l "s.tok" && t != "" then some "s." else if t == str l "a.tok" && t != "" then some "a." else none
+
+/-- Lean twin of the reference storage's exchange policy (harness/internal/refstore TEPart.ValidateTokenExchangeRequest) -/
+def policy (l : Line) (r : TEReq) : Go.R TEReq :=
+  let live := list l "live"
+  let dflt := if str l "st.default" == "" then _root_.C15.tRefresh else str l "st.default"
+  let r := if r.requestedTokenType == "" then { r with requestedTokenType := dflt } else r
+  if r.exchangeSubjectTokenType == _root_.C15.tID && r.requestedTokenType == _root_.C15.tRefresh then .error "ErrInvalidRequest" else
+  let imp := r.scopes.filterMap fun s => if Go.hasPrefix s "custom_scope:impersonate:" then some (String.ofList (s.toList.drop "custom_scope:impersonate:".length)) else none
+  let r := { r with subject := imp.getLast?.getD r.subject, scopes := r.scopes.filter (· != "address") }
+  if r.exchangeSubjectTokenType == _root_.C15.tAccess && !live.contains r.exchangeSubjectTokenIDOrToken then .error "ErrInvalidRequest"
+  else if r.exchangeActorTokenType == _root_.C15.tAccess && (r.exchangeActorTokenIDOrToken != "" || r.exchangeActor != "") && !live.contains r.exchangeActorTokenIDOrToken then .error "ErrInvalidRequest"
+  else if r.exchangeSubject == "blocked-user" || r.subject == "blocked-user" then .error "ErrInvalidRequest"
+  else .ok r
+
+/-- the provider of one line: registry as in C05, every library / storage answer from the line's oracle entries -/
+def providerOf (l : Line) : TEProvider :=
   let cfg := Drv.C05.cfgOf l
-  let p : Provider := { store := { clients := cfg.base.clients }, issuer := str l "issuer", postSupported := true, pkjwtSupported := true }
-  let rq : TokenExchangeIn :=
-    { SubjectToken := "presented", SubjectTokenType := str l "s.type", ActorToken := if str l "a.kind" == "none" then "" else "actor",
-      ActorTokenType := str l "a.type", RequestedTokenType := str l "req.type", Scopes := (list l "scopes").filter (· != "address"),
-      subjectResolves := if bool l "s.live" then some { idOrToken := "x", subject := str l "s.sub" } else none,
-      actorResolves := if bool l "a.live" then some { idOrToken := "y", subject := "actor" } else none,
-      storageAccepts := !bool l "veto", storageDefaultType := _root_.C15.tRefresh }
+  let answer (k : String) (t : String) : Option (String × String) := (pfxOf l t).bind fun p => pair? l (p ++ k)
+  { base := { store := { clients := cfg.base.clients }, issuer := str l "issuer", postSupported := true, pkjwtSupported := true },
+    Crypto := { Decrypt := fun t => match pfxOf l t with
+      | some p => if bool l (p ++ "decok") then .ok (str l (p ++ "dec")) else .error "decrypt"
+      | none => .error "decrypt" },
+    AccessTokenVerifier := { verify := fun t => match answer "jwt" t with
+      | some (jti, sub) => .ok { set := true, JWTID := jti, Subject := sub }
+      | none => .error "invalid" },
+    IDTokenHintVerifier := { verify := fun t => match answer "hint" t with
+      | some ("valid", sub) => .ok (.valid { Subject := sub })
+      | some (_, sub) => .ok (.expired { Subject := sub })
+      | none => .error "invalid" },
+    Storage :=
+      { is_TokenExchangeStorage := cfg.capTE, is_TokenExchangeTokensVerifierStorage := bool l "cap.tev",
+        TokenRequestByRefreshToken := fun t => match (pfxOf l t).map fun p => list l (p ++ "rt") with
+          | some [sub] => .ok { subject := sub }
+          | _ => .error "ErrInvalidRefreshToken",
+        VerifyExchangeSubjectToken := fun t _ => match answer "vs" t with
+          | some (id, sub) => .ok (id, sub, [])
+          | none => .error "not accepted as subject token",
+        VerifyExchangeActorToken := fun t _ => match answer "va" t with
+          | some (id, sub) => .ok (id, sub, [])
+          | none => .error "not accepted as actor token",
+        ValidateTokenExchangeRequest := policy l } }
+
+/-- the regenerated chain (GenTE) on the line's request; both routers -/
+def modelLine (l : Line) : String :=
+  let now := int l "now0"
+  let p := providerOf l
+  let hasAssertion := str l "auth" == "assertion"
+  let rq : TEIn :=
+    { SubjectToken := str l "s.tok", SubjectTokenType := str l "s.type", ActorToken := if str l "a.kind" == "none" then "" else str l "a.tok",
+      ActorTokenType := str l "a.type", RequestedTokenType := str l "req.type", Scopes := list l "scopes",
+      Audience := list l "aud", Resource := list l "res" }
   let code (e : String) : String := "err:" ++ (match e with
       | "ErrInvalidRequest" => "invalid_request" | "ErrInvalidClient" => "invalid_client"
       | "ErrUnauthorizedClient" => "unauthorized_client" | "ErrUnsupportedGrantType" => "unsupported_grant_type" | _ => "server_error")
-  let respond (r : ExchangeReq) (c : OPClient) : String :=
-    match Gen.CreateTokenExchangeResponse 0 r c p with
-    | .error _ => "err:invalid_request"
-    | .ok resp => "ok:" ++ resp.IssuedTokenType.replace "urn:ietf:params:oauth:token-type:" ""
+  let respond (r : TEReq) (c : OPClient) : String :=
+    match GenTE.CreateTokenExchangeResponse now r c p with
+    | .error e => code e
+    | .ok resp => s!"ok:{short resp.IssuedTokenType}:sub={r.subject}:act={r.exchangeActor}:rt={if resp.RefreshToken != "" then 1 else 0}"
   if str l "router" == "legacy" then
     -- Server router: withClient (VerifyClient + registered grant), the handler's parameter checks, then LegacyServer.TokenExchange
-    let cc : ClientCredentials := { ClientID := str l "cid", ClientSecret := str l "secret" }
-    match Flow.withClient 0 p Const.GrantTypeTokenExchange cc false with
+    let cc : ClientCredentials :=
+      { ClientID := str l "cid", ClientSecret := str l "secret",
+        ClientAssertionType := if hasAssertion then Const.ClientAssertionTypeJWTAssertion else "",
+        ClientAssertion := if hasAssertion then parseToken l else default }
+    match Flow.withClient now p.base Const.GrantTypeTokenExchange cc hasAssertion with
     | .error e => code e
     | .ok c =>
-      if rq.SubjectTokenType == "" || !rq.SubjectTokenType.IsSupported then "err:invalid_request"
+      if rq.SubjectToken == "" then "err:invalid_request"
+      else if rq.SubjectTokenType == "" || !rq.SubjectTokenType.IsSupported then "err:invalid_request"
       else if rq.RequestedTokenType != "" && !rq.RequestedTokenType.IsSupported then "err:invalid_request"
       else if rq.ActorTokenType != "" && !rq.ActorTokenType.IsSupported then "err:invalid_request"
-      else if !cfg.capTE then "err:unsupported_grant_type"
-      else match Hand.CreateTokenExchangeRequest 0 rq c p with
+      else if !p.Storage.is_TokenExchangeStorage then "err:unsupported_grant_type"
+      else match GenTE.CreateTokenExchangeRequest now rq c p with
         | .error e => code e
         | .ok r => respond r c
   else
-  if !cfg.capTE then "err:unsupported_grant_type" else
-  match Gen.ValidateTokenExchangeRequest 0 rq (str l "cid") (str l "secret") p with
+  if !p.Storage.is_TokenExchangeStorage then "err:unsupported_grant_type" else
+  -- Provider router: the credentials are those of the Basic header only
+  let (id, sec) := if str l "auth" == "basic" then (str l "cid", str l "secret") else ("", "")
+  match GenTE.ValidateTokenExchangeRequest now rq id sec p with
   | .error e => code e
   | .ok (r, c) => respond r c
 
 def step (l : Line) : String :=
   let m := modelLine l
-  let o := if str l "obs" == "ok" then "ok:" ++ (str l "o.issued").replace "urn:ietf:params:oauth:token-type:" "" else "err:" ++ str l "o.err"
+  let o := showObs l
   s!"case={str l "case"} class={cls l} model={m} observed={o} monitor={showMon (monitorLine l)} agree={if m == o then 1 else 0}"
 
 end Drv.C15
